@@ -39,7 +39,7 @@ def plan(tier):
   return [
       (0, 4, product(VERSIONS, DIALECTS, (1,), ALL) +
              product(VERSIONS, DIALECTS, (2, 3), ("list",))),
-      (5, 5, product((None,), ("standard",), (1,), ("list", "objs"))),
+      (5, 5, product((None,), ("standard",), (1,), ("list",))),
   ]
 
 
